@@ -51,8 +51,10 @@ ASSUMPTIONS = [
     "(type, settings, quads) and patches without faces are ignored (the statement fixes neither the order of patches "
     "nor the fate of a patch whose faces were all deleted)",
     "a vertex 'belongs to' the operations whose block lists it (Block.vertices of the assembled mesh); the moved "
-    "target is applied with Vertex.move_to, so back-ported coordinates are copies: tolerance 1e-12 absolute",
-    "written coordinates are compared with the model at 1e-7 absolute (8 printed decimals, |coordinates| < 100)",
+    "target is applied with Vertex.move_to, so back-ported coordinates are copies: tolerance 1e-12 + 4 ulp of the "
+    "coordinate (a third of the models sit 1e3 .. 4.2e6 from the origin)",
+    "a move changes each chosen coordinate by 0 or by >= 1e-5 (100 x TOL) and at most 0.15 x the smallest cell width, "
+    "over three decades; written coordinates are compared with the model at 1e-8 + 4 ulp (8 printed decimals)",
     "all chops are count-only, so the result of grading does not depend on edge lengths or on propagation order; "
     "when the fresh build itself cannot be written (sparse chops after a delete) the write is counted, not judged",
 ]
@@ -64,6 +66,10 @@ SETTINGS: List[Optional[List[str]]] = [None, [], ["inGroups (g1)"], ["neighbourP
 DEFAULTS = [["defaultFaces", "wall"], ["outer", "patch"], ["defaultFaces", "empty"]]
 GEOMETRY = {"geo": ["type sphere", "origin (0 0 0)", "radius 50"]}
 MOVE_FRACTION = 0.15  # of the smallest lattice width, per axis, measured from the corner's ORIGINAL position
+MOVE_DECADES = [1.0, 1e-2, 1e-4]  # a move may also be a small correction: MOVE_FRACTION x this
+MOVE_MIN = 1e-5  # a non-zero displacement component is at least 100 x TOL: distinct vertex, visible in 8 decimals
+AXIS_MASKS = [[1, 1, 1], [1, 0, 0], [0, 1, 0], [0, 0, 1]]  # which coordinates a move changes
+EPS = 2.3e-16
 ARC_FRACTION = 0.5  # arc control point offset: larger than jitter + move so the three points never line up
 SECTION_NAMES = ("geometry", "vertices", "blocks", "edges", "faces", "boundary", "defaultPatch", "mergePatchPairs")
 
@@ -90,7 +96,12 @@ def history(draw, chops: str = "all", modify: bool = False, max_steps: int = 12)
     # few drawn floats (5, reused with a stride) so that Hypothesis spends its mutations on the program
     base = [draw(st.floats(-1.0, 1.0)) for _ in range(5)] if draw(st.booleans()) else []
     jitter = [base[(3 * j) % 5] * (1.0 if j % 2 else -0.5) for j in range(3 * nn)] if base else []
-    k = min(draw(st.sampled_from([2, 3, 3, 4, 4])), ncell)
+    offset = None
+    if draw(st.integers(0, 2)) == 0:
+        # geo-referenced coordinates: a small move is then far below 1e-5 x coordinate, yet far above TOL
+        mag = draw(st.sampled_from([1e3, 1e5, 2e6]))
+        offset = [mag * draw(st.sampled_from([1.0, -1.0, 2.1, 0.0])) for _ in range(3)]
+    k = min(draw(st.sampled_from([2, 3, 3, 4, 4] if chops == "all" else [3, 3, 4, 4, 4, 2])), ncell)
     # grow the set of cells mostly through face neighbours, so that operations usually share vertices
     cells = [draw(st.integers(0, ncell - 1))]
     while len(cells) < k:
@@ -115,7 +126,7 @@ def history(draw, chops: str = "all", modify: bool = False, max_steps: int = 12)
         for a in range(3):
             n = count_of[(c, axes[a][0])]
             # a hole only where an operation earlier in the pool holds the family's chop
-            if chops == "sparse" and (c, axes[a][0]) in holders and draw(st.integers(0, 1)) == 0:
+            if chops == "sparse" and (c, axes[a][0]) in holders and draw(st.integers(0, 2)) != 2:
                 chop.append(None)
             else:
                 chop.append(n)
@@ -187,7 +198,8 @@ def history(draw, chops: str = "all", modify: bool = False, max_steps: int = 12)
             program.append(["backport"])
         elif kind == "move":
             picks = [
-                [draw(small), draw(st.integers(0, 7)), [draw(st.floats(-1.0, 1.0)) for _ in range(3)]]
+                [draw(small), draw(st.integers(0, 7)), [draw(st.floats(-1.0, 1.0)) for _ in range(3)],
+                 draw(st.integers(0, len(MOVE_DECADES) - 1)), draw(st.integers(0, len(AXIS_MASKS) - 1))]
                 for _ in range(draw(st.integers(1, 3)))
             ]
             program.append(["move", picks])
@@ -202,7 +214,10 @@ def history(draw, chops: str = "all", modify: bool = False, max_steps: int = 12)
             program.append(["write", draw(st.booleans())])
             assembled = was_assembled = True
     program.append(["write", draw(st.booleans())])
-    return {"dims": list(dims), "widths": widths, "jitter": jitter, "pool": pool, "program": program}
+    case = {"dims": list(dims), "widths": widths, "jitter": jitter, "pool": pool, "program": program}
+    if offset is not None:
+        case["offset"] = offset
+    return case
 
 
 # --------------------------------------------------------------------------------------------------
@@ -398,6 +413,7 @@ class Run:
         self.features: set = set()  # things that happened so far: reassembled, deleted, written, modified, moved...
         self.judged = 0
         self.nontrivial = False
+        self.small_move_pending = False
 
     # ---- facts attached to every violation
     def facts(self, **extra) -> dict:
@@ -507,6 +523,7 @@ class Run:
         if m.pending:
             self.features.add("moves-dropped-by-clear")
         m.pending.clear()
+        self.small_move_pending = False
         self.features.add("cleared")
         if m.mods:
             self.features.add("cleared-after-modify")
@@ -521,13 +538,22 @@ class Run:
         blocks = self.mesh.blocks
         if len(blocks) != len(alive):
             self.fail("block-count", f"{len(blocks)} blocks for {len(alive)} live operations")
-        for k, corner, frac in picks:
+        for pick in picks:
+            k, corner, frac = pick[:3]
+            decade, mask = (pick[3], pick[4]) if len(pick) > 3 else (0, 0)
             i = alive[k % len(alive)]
             self.resolved.append([i, corner])
             vertex = blocks[alive.index(i)].vertices[corner]
             self._expect_position(vertex.position, m.live_pos(i, corner), "assembled-position",
                                   f"vertex of operation {i} corner {corner}")
-            target = m.orig[i][corner] + MOVE_FRACTION * m.minw * np.array(frac, dtype=float)
+            disp = MOVE_FRACTION * MOVE_DECADES[decade] * m.minw * np.array(frac, dtype=float) * np.array(AXIS_MASKS[mask])
+            disp = np.where((disp != 0) & (np.abs(disp) < MOVE_MIN), np.copysign(MOVE_MIN, disp), disp)
+            target = m.orig[i][corner] + disp
+            step = np.abs(target - m.live_pos(i, corner))
+            if step.max() >= MOVE_MIN and np.all(step <= 1e-8 + 1e-5 * np.abs(target)):
+                # every component changes by less than 1e-5 of its value (numpy's default 'close'), yet it is a real move
+                self.features.add("moved-less-than-1e-5-of-coordinate")
+                self.small_move_pending = True
             # the vertex belongs to every operation whose block lists it
             for bi, block in enumerate(blocks):
                 for c, v in enumerate(block.vertices):
@@ -537,9 +563,10 @@ class Run:
         self.features.add("moved")
         return True
 
-    def _expect_position(self, got, want, kind: str, what: str, tol: float = 1e-12) -> None:
+    def _expect_position(self, got, want, kind: str, what: str) -> None:
+        # positions are copied, never computed: 1e-12 + a few ulp of the coordinate (offsets up to 4.2e6)
         err = float(np.max(np.abs(np.asarray(got, dtype=float) - want)))
-        if not err <= tol:
+        if not err <= 1e-12 + 4 * EPS * float(np.max(np.abs(want))):
             self.fail(kind, f"{what}: position {np.asarray(got).tolist()} expected {want.tolist()}", error=err)
 
     def do_backport(self) -> bool:
@@ -548,6 +575,9 @@ class Run:
             self.skip("backport", "not-assembled")
             return False
         moved = bool(m.pending)
+        if moved and self.small_move_pending:
+            self.features.add("backported-move-less-than-1e-5-of-coordinate")
+        self.small_move_pending = False
         self.lib("backport", self.mesh.backport)
         for (i, corner), target in m.pending.items():
             m.pos[i][corner] = target
@@ -556,7 +586,7 @@ class Run:
         for i in m.added:
             got = np.asarray(self.ops[i].point_array, dtype=float)
             err = float(np.max(np.abs(got - m.pos[i])))
-            if not err <= 1e-12:
+            if not err <= 1e-12 + 4 * EPS * float(np.max(np.abs(m.pos[i]))):
                 self.fail(
                     "backport-wrong-operation",
                     f"operation {i} ({'deleted' if i in m.deleted else 'live'}) holds {got.tolist()} after backport, "
@@ -742,7 +772,8 @@ class Run:
                     self.fail("bad-vertex-label", f"hex {bi} refers to vertex {vid} of {nv}")
                 want = m.live_pos(i, c)
                 err = float(np.max(np.abs(np.array(bmd.vertices[vid].pos) - want)))
-                if not err <= 1e-7:
+                # 8 printed decimals (5e-9) + a few ulp of the coordinate; the smallest move is 1e-5
+                if not err <= 1e-8 + 4 * EPS * float(np.max(np.abs(want))):
                     self.fail("written-position", f"hex {bi} corner {c}: written {bmd.vertices[vid].pos}, model {want.tolist()}",
                               error=err)
         # quads of a patch are sides of live blocks carrying that patch name
@@ -787,8 +818,8 @@ CELLS = [
     Cell("C12/history/chopped", history("all"), check_history, 700, 21000,
          "every operation chopped on every axis; no modify_patch; text vs fresh build at every write, point arrays after "
          "backport, second write"),
-    Cell("C12/history/propagated", history("sparse"), check_history, 500, 15000,
-         "about half of the block directions whose edge family is chopped on an earlier operation get their count from "
+    Cell("C12/history/propagated", history("sparse"), check_history, 700, 21000,
+         "about two thirds of the block directions whose edge family is chopped on an earlier operation get their count from "
          "neighbours; writes that a fresh build cannot do either (family left without a chop after a delete) are counted"),
     Cell("C12/history/patches", history("all", modify=True), check_history, 600, 18000,
          "as chopped, plus modify_patch steps (types and settings changed through the mesh must survive clear/backport)"),
